@@ -1271,7 +1271,7 @@ def ctor_table(prog):
     """{root fn: {adt: [ {field: class} per aggregate in source order ]}} for constructor-like functions of crate structs"""
     out = {}
     for d, b in prog.bodies.items():
-        if b.generated or not d.startswith("alpenglow::"):
+        if b.generated or not d.startswith(("alpenglow::", "<alpenglow::")):
             continue
         root = d.split("::{closure")[0]
         last = mir.strip_generics(root).rsplit("::", 1)[-1]
@@ -1449,10 +1449,10 @@ def ob_results_not_discarded(run, oid, prefixes, why):
     per = {}
     n = 0
     for d, b in prog.bodies.items():
-        if b.generated or not d.startswith("alpenglow::") or "::tests::" in d:
+        if b.generated or not d.startswith(("alpenglow::", "<alpenglow::")) or "::tests::" in d:
             continue
-        sd = d[len("alpenglow::"):]
-        if not any(sd.startswith(p) for p in prefixes):
+        sd = _module_of(K.fshort(d.split("::{closure")[0])) + "::"
+        if not any(sd.startswith(p) or (sd.rstrip(":") == p.rstrip(":")) for p in prefixes):
             continue
         n += 1
         root = K.fshort(d.split("::{closure")[0])
@@ -1524,7 +1524,7 @@ def truncation_table(prog):
     truncate, split_off, drain) in non-test crate code"""
     out = {}
     for d, b in prog.bodies.items():
-        if b.generated or not d.startswith("alpenglow::") or "::tests::" in d:
+        if b.generated or not d.startswith(("alpenglow::", "<alpenglow::")) or "::tests::" in d:
             continue
         root = K.fshort(d.split("::{closure")[0])
         for c in b.calls():
@@ -1541,6 +1541,8 @@ def _module_of(root):
     if r.startswith("<"):
         r = r[1:].split(" as ")[0]
     r = mir.strip_generics(r)
+    if r.startswith("alpenglow::"):
+        r = r[len("alpenglow::"):]
     segs = []
     for seg in r.split("::"):
         if seg and (seg[0].islower() or seg[0] == "_") and "{" not in seg:
@@ -1557,7 +1559,7 @@ def early_exit_counts(prog):
     """{root fn: number of early exits (break / return / `?` edges) of loops that act on outside state}"""
     out = {}
     for d, b in prog.bodies.items():
-        if b.generated or not d.startswith("alpenglow::") or "::tests::" in d:
+        if b.generated or not d.startswith(("alpenglow::", "<alpenglow::")) or "::tests::" in d:
             continue
         root = K.fshort(d.split("::{closure")[0])
         n = 0
@@ -1606,6 +1608,21 @@ def ob_no_new_truncation(run, oid, prefixes, why):
             o.check(k <= w + budget, "%s|%s" % (culprits[0] if culprits and k > w + budget else m, ad), "module %s uses .%s() %d time(s) (reviewed: %d%s)" % (m, ad, k, w, ", +%d for respelled early-exit loops" % budget if budget else ""), "",
                     {"now": k, "reviewed": w, "functions": culprits[:3]},
                     fail_what="%s cuts a sequence short with a new .%s() (module %s: %d use(s), reviewed %d): elements behind the cut are not processed" % (", ".join(culprits[:2]) or m, ad, m, k, w))
+    # positions counted AFTER elements were dropped: `.filter(..).enumerate()` / `.skip(..).enumerate()` numbers the survivors, not the original positions - wrong whenever the
+    # index is used to address a parallel collection (none on the reviewed tree)
+    for d, b in sorted(prog.bodies.items()):
+        if b.generated or not d.startswith(("alpenglow::", "<alpenglow::")) or "::tests::" in d:
+            continue
+        root = K.fshort(d.split("::{closure")[0])
+        m = _module_of(root)
+        if not any(m.startswith(p) for p in prefixes):
+            continue
+        for c in b.calls():
+            if c.name.endswith("Iterator::enumerate") and c.args:
+                inner = [x[1].rsplit("::", 1)[-1] for x in mir.walk(b.operand_term(c.args[0])) if isinstance(x, tuple) and x and x[0] == "call"]
+                bad = [a for a in inner if a in ("filter", "filter_map", "skip", "skip_while", "step_by", "take_while", "flatten", "flat_map")]
+                if bad:
+                    o.fail("%s|enumerate-after-%s" % (root, bad[0]), "%s numbers the elements that survive .%s(): the index no longer is the element's position in the original sequence" % (root, bad[0]), c.span)
     o.ok("scanned", "%d (module, adapter) pairs in %s" % (n, ", ".join(prefixes)), "", nontrivial=True)
     return o
 
@@ -1621,7 +1638,7 @@ def ob_no_globals(run, oid, prefixes, why):
     n = 0
     for d, r in sorted(prog.statics.items()):
         sd = d.replace("alpenglow::", "", 1)
-        if not d.startswith("alpenglow::") or not any(sd.startswith(p) for p in prefixes):
+        if not d.startswith(("alpenglow::", "<alpenglow::")) or not any(sd.startswith(p) for p in prefixes):
             continue
         n += 1
         o.check(sd in REVIEWED_STATICS, "static|%s" % sd, "static %s is reviewed" % sd, r.get("span", ""), {"ty": r.get("ty", "")[:100]},
